@@ -17,15 +17,72 @@ Definition stmt_keys (s : stmt) : list key :=
   | SReplaceOp l => [KLocal l]
   | _ => []
   end.
-(* the fragment: no pdl.result statement, no empty replacement list, replace-with-operation only for a root that
-   declares result types *)
-Definition frag (rootpat : op_pat) (s : stmt) : Prop :=
+(* static result counts of the operations the rewrite creates: local id -> Some n (an operation with n results) or
+   None (not an operation / count not known statically) *)
+Definition tenv := list (Z * option Z).
+Fixpoint tlook (t : tenv) (l : Z) : option (option Z) :=
+  match t with [] => None | (l', c) :: r => if l' =? l then Some c else tlook r l end.
+Definition tstep (rootpat : op_pat) (t : tenv) (s : stmt) (later : list stmt) : tenv :=
   match s with
-  | SResult _ _ _ => False
-  | SReplaceVals [] => False
-  | SReplaceOp _ => op_rtys rootpat <> []
-  | _ => True
+  | SAttr l _ | SType l _ | SResult l _ _ => (l, None) :: t
+  | SOp l _ _ _ tys =>
+      (l, match tys with
+          | [] => if existsb (is_replace_with l) later then Some (zlen (op_rtys rootpat)) else Some 0
+          | _ => Some (zlen tys)
+          end) :: t
+  | SReplaceVals _ | SReplaceOp _ | SErase => []
   end.
+(* the fragment: a pdl.result only of a new operation whose result count (declared, or inferred from the root) covers
+   the index, no empty replacement list, a replacement operation without results for a root without result types *)
+Definition frag (rootpat : op_pat) (t : tenv) (s : stmt) : bool :=
+  match s with
+  | SResult _ lop idx => match tlook t lop with Some (Some n) => (0 <=? idx) && (idx <? n) | _ => false end
+  | SReplaceVals [] => false
+  | SReplaceOp l => match op_rtys rootpat with
+                    | [] => match tlook t l with Some (Some 0) => true | _ => false end
+                    | _ => true
+                    end
+  | _ => true
+  end.
+Fixpoint frag_all (rootpat : op_pat) (t : tenv) (l : list stmt) : bool :=
+  match l with
+  | [] => true
+  | s :: r => frag rootpat t s && frag_all rootpat (tstep rootpat t s r) r
+  end.
+
+(* facts about create_op *)
+Lemma find_le : forall l p x, find_op_in l p = Some x -> p <= maxid l.
+Proof.
+  induction l as [|y l IH]; intros p x H; simpl in H; [discriminate |].
+  destruct (o_id y =? p) eqn:E; [apply Z.eqb_eq in E; simpl; lia | specialize (IH _ _ H); simpl; lia].
+Qed.
+Lemma insert_before_new : forall l root n l', insert_before l root n = Some l' -> maxid l < o_id n ->
+  find_op_in l' (o_id n) = Some n.
+Proof.
+  induction l as [|y l IH]; intros root n l' H Hm; simpl in H; [discriminate |].
+  destruct (o_id y =? root) eqn:E.
+  - inversion H; subst. simpl. rewrite Z.eqb_refl. reflexivity.
+  - destruct (insert_before l root n) eqn:E2; [| discriminate]. inversion H; subst. simpl. simpl in Hm.
+    destruct (o_id y =? o_id n) eqn:E3; [apply Z.eqb_eq in E3; lia | eapply IH; [exact E2 | lia]].
+Qed.
+Lemma create_op_old : forall pl root name vs ats ts pl' id p x,
+  create_op pl root name vs ats ts = Some (pl', id) -> find_op pl p = Some x -> find_op pl' p = Some x.
+Proof.
+  intros pl root name vs ats ts pl' id p x H Hx. unfold create_op in H. destruct (split_attrs ats) as [as_ ps].
+  match type of H with match ?ib with _ => _ end = _ => destruct ib as [l|] eqn:E end; [| discriminate].
+  inversion H; subst. unfold find_op in *. simpl. rewrite (insert_before_find _ _ _ _ p E); [exact Hx |].
+  simpl. pose proof (find_le _ _ _ Hx). unfold fresh. lia.
+Qed.
+Lemma create_op_new : forall pl root name vs ats ts pl' id,
+  create_op pl root name vs ats ts = Some (pl', id) -> exists xn, find_op pl' id = Some xn /\ o_rtys xn = ts.
+Proof.
+  intros pl root name vs ats ts pl' id H. unfold create_op in H. destruct (split_attrs ats) as [as_ ps].
+  match type of H with match ?ib with _ => _ end = _ => destruct ib as [l|] eqn:E end; [| discriminate].
+  inversion H; subst.
+  exists {| o_id := fresh pl; o_name := name; o_operands := vs; o_attrs := as_; o_props := ps; o_rtys := ts |}.
+  split; [| reflexivity]. unfold find_op. simpl.
+  apply (insert_before_new _ _ _ _ E). simpl. unfold fresh. lia.
+Qed.
 
 Section Full.
 Variable fx : fixes.
@@ -100,11 +157,48 @@ Proof.
   destruct v; try contradiction; destruct (all_some (map (get_type e) ks)); reflexivity.
 Qed.
 
-Definition outcome (c1 : list rinstr) (st1 : rg) (regs : list (rreg * obj)) (pl : payload)
+Definition TY (t : tenv) (e : env) (pl : payload) : Prop :=
+  forall l n, tlook t l = Some (Some n) ->
+    exists id xn, klookup e (KLocal l) = Some (OOp id) /\ find_op pl id = Some xn /\ zlen (o_rtys xn) = n.
+Lemma TY_nil : forall e pl, TY [] e pl.
+Proof. intros e pl l n H. discriminate H. Qed.
+Lemma TY_shadow : forall t e pl l w, TY t e pl -> TY ((l, None) :: t) ((KLocal l, w) :: e) pl.
+Proof.
+  intros t e pl l w H l' n Hl. simpl in Hl. destruct (l =? l') eqn:E; [discriminate |].
+  destruct (H _ _ Hl) as (id & xn & H1 & H2 & H3). exists id, xn. split; [| auto].
+  rewrite klookup_cons_neq; [exact H1 |]. intro X. inversion X. subst. rewrite Z.eqb_refl in E. discriminate.
+Qed.
+Lemma TY_create : forall t e pl root name vs ats ts pl' id l cnt,
+  create_op pl root name vs ats ts = Some (pl', id) -> TY t e pl ->
+  (forall n, cnt = Some n -> zlen ts = n) ->
+  TY ((l, cnt) :: t) ((KLocal l, OOp id) :: e) pl'.
+Proof.
+  intros t e pl root name vs ats ts pl' id l cnt Hc H Hcnt l' n Hl. simpl in Hl. destruct (l =? l') eqn:E.
+  - apply Z.eqb_eq in E. subst l'. inversion Hl; subst cnt.
+    destruct (create_op_new _ _ _ _ _ _ _ _ Hc) as (xn & H1 & H2). exists id, xn.
+    split; [apply klookup_cons_eq | split; [exact H1 | rewrite H2; apply Hcnt; reflexivity]].
+  - destruct (H _ _ Hl) as (id' & xn & H1 & H2 & H3). exists id', xn. split; [| split; [eapply create_op_old; eassumption | exact H3]].
+    rewrite klookup_cons_neq; [exact H1 |]. intro X. inversion X. subst. rewrite Z.eqb_refl in E. discriminate.
+Qed.
+Lemma all_some_len : forall A B (f : A -> option B) l vs, all_some (map f l) = Some vs -> length vs = length l.
+Proof.
+  intros A B f. induction l as [|a l IH]; intros vs H; simpl in H; [inversion H; reflexivity |].
+  destruct (f a); [| discriminate]. destruct (all_some (map f l)) eqn:E; [| discriminate]. inversion H; subst.
+  simpl. rewrite (IH _ eq_refl). reflexivity.
+Qed.
+
+(* the payload root has as many results as the pattern root declares (until it is replaced / erased) *)
+Definition RL (pl : payload) : Prop := forall x, find_op pl pid = Some x -> zlen (o_rtys x) = zlen (op_rtys rootpat).
+Lemma RL_gone : forall pl, find_op pl pid = None -> RL pl.
+Proof. intros pl H x Hx. congruence. Qed.
+Lemma RL_create : forall pl name vs ats ts pl' id, create_op pl pid name vs ats ts = Some (pl', id) -> RL pl -> RL pl'.
+Proof. intros pl name vs ats ts pl' id H HR x Hx. rewrite (create_op_find _ _ _ _ _ _ _ _ H) in Hx. apply HR. exact Hx. Qed.
+
+Definition outcome (c1 : list rinstr) (st1 : rg) (t' : tenv) (regs : list (rreg * obj)) (pl : payload)
                    (r : option (env * payload)) : Prop :=
   match r with
   | Some (e', pl') => exists regs', (forall rest, run_rewriter fx pid (c1 ++ rest) regs pl = run_rewriter fx pid rest regs' pl') /\
-                                    Inv' e' st1 regs' /\ NR e' /\ RI rootpat pid pl'
+                                    Inv' e' st1 regs' /\ NR e' /\ RL pl' /\ TY t' e' pl'
   | None => forall rest, run_rewriter fx pid (c1 ++ rest) regs pl = RErr
   end.
 
@@ -117,18 +211,19 @@ Lemma Inv_local' : forall e st regs l w, Inv' e st regs ->
          rg_ntmp := rg_ntmp st + 1 |} ((RT (rg_ntmp st), w) :: regs).
 Proof. intros. eapply Inv_local; eassumption. Qed.
 
-Lemma stmt_full : forall s later st st1 c1 e regs pl,
+Lemma stmt_full : forall s later t st st1 c1 e regs pl,
   Inv' e st regs -> NR e -> gen_stmt fx P inp rootpat st s later = Some (st1, c1) -> pre (rg_used st1) usedF ->
-  RI rootpat pid pl -> frag rootpat s -> (forall k, In k (stmt_keys s) -> ~ localk k -> klookup inp k <> None) ->
-  outcome c1 st1 regs pl (step_rw fx pid s later e pl).
+  RL pl -> TY t e pl -> frag rootpat t s = true ->
+  (forall k, In k (stmt_keys s) -> ~ localk k -> klookup inp k <> None) ->
+  outcome c1 st1 (tstep rootpat t s later) regs pl (step_rw fx pid s later e pl).
 Proof.
-  intros s later st st1 c1 e regs pl HI HN E1 Hpre1 HRI Hfr Hk.
-  destruct s; cbn [gen_stmt] in E1; cbn [step_rw outcome]; cbn [frag] in Hfr; cbn [stmt_keys] in Hk.
+  intros s later t st st1 c1 e regs pl HI HN E1 Hpre1 HRI HTY Hfr Hk.
+  destruct s; cbn [gen_stmt] in E1; cbn [step_rw outcome tstep]; cbn [frag] in Hfr; cbn [stmt_keys] in Hk.
   - (* pdl.attribute *)
     cbv beta iota zeta delta [rtmp] in E1. inversion E1; subst; clear E1. eexists. split; [intro rest; reflexivity |].
-    split; [apply Inv_local'; exact HI | split; [apply NR_cons; [exact HN | exact I] | exact HRI]].
+    split; [apply Inv_local'; exact HI | split; [apply NR_cons; [exact HN | exact I] | split; [exact HRI | apply TY_shadow; exact HTY]]].
   - cbv beta iota zeta delta [rtmp] in E1. inversion E1; subst; clear E1. eexists. split; [intro rest; reflexivity |].
-    split; [apply Inv_local'; exact HI | split; [apply NR_cons; [exact HN | exact I] | exact HRI]].
+    split; [apply Inv_local'; exact HI | split; [apply NR_cons; [exact HN | exact I] | split; [exact HRI | apply TY_shadow; exact HTY]]].
   - (* pdl.operation *)
     destruct (map_values fx P inp st (map vref_key operands)) as [[[sa ca] ro]|] eqn:Ea; [| discriminate].
     destruct (map_values fx P inp sa (map (fun na => aref_key (snd na)) attrs)) as [[[sb cb] ra]|] eqn:Eb; [| discriminate].
@@ -144,7 +239,8 @@ Proof.
         as (regs2 & S2 & I2 & F2 & X2).
       exists regs2. split; [eapply steps_app; eassumption |]. split; [exact I2 |]. split; [eapply ext_trans; eassumption |].
       split; [eapply agree_ext; eassumption | exact F2]. }
-    assert (Hfin : forall sc cc rt regs3 tyexpr,
+    assert (Hfin : forall sc cc rt regs3 tyexpr cnt,
+              (forall ts n, tyexpr = Some ts -> cnt = Some n -> zlen ts = n) ->
               Inv' e sc regs3 -> steps_at fx pid pl (ca ++ cb ++ cc) regs regs3 ->
               Forall2 (agree_kr e regs3) (map vref_key operands) ro ->
               Forall2 (agree_kr e regs3) (map (fun na => aref_key (snd na)) attrs) ra ->
@@ -152,7 +248,7 @@ Proof.
               st1 = {| rg_vals := (KLocal l, RT (rg_ntmp sc)) :: rg_vals sc; rg_used := rg_used sc;
                        rg_nargs := rg_nargs sc; rg_ntmp := rg_ntmp sc + 1 |} ->
               c1 = ca ++ cb ++ cc ++ [RCreateOp (RT (rg_ntmp sc)) name ro (combine (map fst attrs) ra) rt] ->
-              outcome c1 st1 regs pl
+              outcome c1 st1 ((l, cnt) :: t) regs pl
                 (match all_some (map (fun v => get_val e (vref_key v)) operands),
                        all_some (map (fun na : Z * aref => match get_attr e (aref_key (snd na)) with
                                                            | Some a => Some (fst na, a) | None => None end) attrs),
@@ -164,7 +260,7 @@ Proof.
                      end
                  | _, _, _ => None
                  end)).
-    { intros sc cc rt regs3 tyexpr HI3 Hst Fo Fa Hty -> ->.
+    { intros sc cc rt regs3 tyexpr cnt Hcnt HI3 Hst Fo Fa Hty -> ->.
       assert (Hrun : forall rest,
                 run_rewriter fx pid ((ca ++ cb ++ cc ++ [RCreateOp (RT (rg_ntmp sc)) name ro (combine (map fst attrs) ra) rt]) ++ rest) regs pl =
                 match all_some (map (fun v => get_val e (vref_key v)) operands),
@@ -192,8 +288,9 @@ Proof.
       destruct tyexpr as [ts|]; [| cbn [outcome]; intro rest; rewrite Hrun; reflexivity].
       destruct (create_op pl pid name vs ats ts) as [[pl' id]|] eqn:Dc; [| cbn [outcome]; intro rest; rewrite Hrun; reflexivity].
       cbn [outcome]. eexists. split; [intro rest; rewrite Hrun; reflexivity |].
-      split; [apply Inv_local'; exact HI3 | split; [apply NR_cons; [exact HN | exact I] | eapply RI_create; eassumption]]. }
-    destruct tys as [|t tys].
+      split; [apply Inv_local'; exact HI3 | split; [apply NR_cons; [exact HN | exact I] | split; [eapply RL_create; eassumption |]]].
+      eapply TY_create; [exact Dc | exact HTY | intros n Hn; eapply Hcnt; [reflexivity | exact Hn]]. }
+    destruct tys as [|t0 tys].
     + destruct (existsb (is_replace_with l) later) eqn:Ex.
       * destruct (map_value fx P inp sb (KOp (op_id rootpat))) as [[[sc cc] rroot]|] eqn:Ec; [| discriminate].
         cbv beta iota zeta delta [rtmp] in E1. inversion E1; subst; clear E1. cbn [rg_used] in Hpre1.
@@ -209,7 +306,8 @@ Proof.
            cbn [rg_ntmp rg_vals rg_used rg_nargs] in I5.
            assert (X5 : ext regs3 ((RT (n + 1), OTypes (map (vtype pl) (op_results x))) :: (RT n, OVals (op_results x)) :: regs3)).
            { eapply ext_trans; [eapply ext_tmp; exact I3 | eapply (ext_tmp _ _ _ _ _ _ _ I4)]. }
-           eapply (Hfin _ (cc ++ [RGetResults (RT n) rroot] ++ [RGetValueType (RT (n + 1)) (RT n)]) [RT (n + 1)] _ (Some (o_rtys x)) I5).
+           eapply (Hfin _ (cc ++ [RGetResults (RT n) rroot] ++ [RGetValueType (RT (n + 1)) (RT n)]) [RT (n + 1)] _ (Some (o_rtys x)) (Some (zlen (op_rtys rootpat)))
+                     ltac:(intros ts1 n1 H1 H2; inversion H1; inversion H2; subst; apply HRI; exact Df) I5).
            ++ replace (ca ++ cb ++ cc ++ [RGetResults (RT n) rroot] ++ [RGetValueType (RT (n + 1)) (RT n)])
                 with ((ca ++ cb) ++ cc ++ ([RGetResults (RT n) rroot] ++ [RGetValueType (RT (n + 1)) (RT n)]))
                 by (rewrite <- app_assoc; reflexivity).
@@ -243,25 +341,43 @@ Proof.
       * cbv beta iota zeta delta [rtmp] in E1. inversion E1; subst; clear E1. cbn [rg_used] in Hpre1.
         rewrite andb_false_r.
         destruct Hpa as (regs2 & S2 & I2 & X2 & Fo & Fa); [exact Hpre1 |].
-        eapply (Hfin sb [] [] regs2 (Some [])); try reflexivity; try assumption.
+        eapply (Hfin sb [] [] regs2 (Some []) (Some 0)); try reflexivity; try assumption;
+          try (intros ts0 n0 H1 H2; inversion H1; inversion H2; reflexivity).
         rewrite app_nil_r. apply steps_at_of. exact S2.
-    + destruct (map_values fx P inp sb (map tref_key (t :: tys))) as [[[sc cc] rt]|] eqn:Ec; [| discriminate].
+    + destruct (map_values fx P inp sb (map tref_key (t0 :: tys))) as [[[sc cc] rt]|] eqn:Ec; [| discriminate].
       cbv beta iota zeta delta [rtmp] in E1. inversion E1; subst; clear E1. cbn [rg_used] in Hpre1.
       destruct Hpa as (regs2 & S2 & I2 & X2 & Fo & Fa); [eapply pre_trans; [eapply map_values_le; exact Ec | exact Hpre1] |].
       destruct (map_values_sim' _ _ _ _ _ _ _ I2
                   (fun k H => Hk k (in_or_app _ _ _ (or_intror (in_or_app _ _ _ (or_intror H))))) Ec Hpre1)
         as (regs3 & S3 & I3 & F3 & X3).
-      eapply (Hfin sc cc rt regs3 _ I3); try reflexivity.
+      eapply (Hfin sc cc rt regs3 (all_some (map (fun t1 => get_type e (tref_key t1)) (t0 :: tys))) (Some (zlen (t0 :: tys))));
+        try reflexivity.
+      * intros ts n H1 H2. inversion H2; subst. apply all_some_len in H1. unfold zlen. rewrite H1. reflexivity.
+      * exact I3.
       * rewrite app_assoc. eapply steps_at_app; apply steps_at_of; eassumption.
       * eapply agree_ext; eassumption.
       * eapply agree_ext; eassumption.
       * rewrite (rr_types_agree _ _ _ _ F3 HN), map_map. reflexivity.
-  - contradiction.
+  - (* pdl.result of a new operation whose result count is known *)
+    destruct (tlook t lop) as [[n|]|] eqn:Et; try discriminate.
+    apply andb_true_iff in Hfr. destruct Hfr as [Hr1 Hr2]. apply Z.leb_le in Hr1. apply Z.ltb_lt in Hr2.
+    destruct (HTY _ _ Et) as (id & xn & Hl & Hf & Hz).
+    destruct (map_value fx P inp st (KLocal lop)) as [[[sa ca] r]|] eqn:Ea; [| discriminate].
+    cbv beta iota zeta delta [rtmp] in E1. inversion E1; subst; clear E1. cbn [rg_used] in Hpre1.
+    destruct (map_value_sim fx P inp pid e0 regs0 usedF Hnoloc Hinj HArg HCa HCt _ _ _ _ _ _ _ _ HI Hl Ea Hpre1)
+      as (regs1 & S1 & I1 & Hr & X1).
+    unfold get_opid. rewrite Hl, Hf.
+    assert (Hin : (0 <=? idx) && (idx <? zlen (o_rtys xn)) = true).
+    { apply andb_true_iff. split; [apply Z.leb_le | apply Z.ltb_lt]; lia. }
+    rewrite Hin. cbn [outcome]. eexists. split.
+    + intro rest. rewrite <- app_assoc. rewrite S1. simpl app. cbn [run_rewriter]. unfold rr_op. rewrite Hr, Hf, Hin.
+      rewrite (find_op_id _ _ _ Hf). reflexivity.
+    + split; [apply Inv_local'; exact I1 | split; [apply NR_cons; [exact HN | exact I] | split; [exact HRI | apply TY_shadow; exact HTY]]].
   - (* pdl.replace with values *)
     destruct (map_values fx P inp st (map vref_key vs)) as [[[sa ca] rs]|] eqn:Ea; [| discriminate].
     destruct (map_value fx P inp sa (KOp (op_id rootpat))) as [[[sb cb] rroot]|] eqn:Eb; [| discriminate].
     inversion E1; subst; clear E1.
-    destruct vs as [|v0 vs]; [contradiction |].
+    destruct vs as [|v0 vs]; [discriminate |].
     assert (Hpa : pre (rg_used sa) usedF) by (eapply pre_trans; [eapply map_value_le; exact Eb | exact Hpre1]).
     destruct (map_values_sim' _ _ _ _ _ _ _ HI Hk Ea Hpa) as (regs1 & S1 & I1 & F1 & X1).
     destruct (map_value_sim fx P inp pid e0 regs0 usedF Hnoloc Hinj HArg HCa HCt _ _ _ _ _ _ _ _ I1 (root_key' _ _ _ I1) Eb Hpre1)
@@ -288,12 +404,38 @@ Proof.
     + destruct (replace_op pl pid news) as [pl'|] eqn:Dp.
       * destruct (replace_op_find _ _ _ _ Dp) as (x & Dx & Hid). cbn [outcome]. exists regs2.
         split; [intro rest; rewrite Hrun, Dx, Hid, Dp; reflexivity |].
-        split; [exact I2 | split; [exact HN | apply RI_gone; eapply find_after_replace; exact Dp]].
+        split; [exact I2 | split; [exact HN | split; [apply RL_gone; eapply find_after_replace; exact Dp | apply TY_nil]]].
       * cbn [outcome]. intro rest. rewrite Hrun. destruct (find_op pl pid) as [x|] eqn:Dx; [| reflexivity].
         rewrite (find_op_id _ _ _ Dx), Dp. reflexivity.
     + cbn [outcome]. intro rest. rewrite Hrun. destruct (find_op pl pid); reflexivity.
   - (* pdl.replace with an operation, root with declared result types *)
-    destruct (op_rtys rootpat) as [|t0 ts0] eqn:Ert; [contradiction |].
+    destruct (op_rtys rootpat) as [|t0 ts0] eqn:Ert.
+    { (* root without result types: the lowering erases it; the replacement is known to have no results *)
+      destruct (tlook t l) as [[[| |]|]|] eqn:Et; try discriminate.
+      destruct (HTY _ _ Et) as (id & xn & Hl & Hf & Hz).
+      destruct (map_value fx P inp st (KOp (op_id rootpat))) as [[[sa ca] rroot]|] eqn:Ea; [| discriminate].
+      inversion E1; subst; clear E1.
+      destruct (map_value_sim fx P inp pid e0 regs0 usedF Hnoloc Hinj HArg HCa HCt _ _ _ _ _ _ _ _ HI (root_key' _ _ _ HI) Ea Hpre1)
+        as (regs1 & S1 & I1 & Hr1 & X1).
+      assert (Hnil : op_results xn = []).
+      { unfold op_results. unfold zlen in Hz. destruct (o_rtys xn); [reflexivity | simpl in Hz; lia]. }
+      unfold get_opid. rewrite Hl, Hf, Hnil.
+      assert (Hrun : forall rest, run_rewriter fx pid ((ca ++ [RErase rroot]) ++ rest) regs pl =
+                match find_op pl pid with
+                | Some x => match erase_op pl (o_id x) with Some pl' => run_rewriter fx pid rest regs1 pl' | None => RErr end
+                | None => RErr
+                end).
+      { intro rest. rewrite <- !app_assoc. rewrite S1. simpl app. cbn [run_rewriter]. rewrite Herase. unfold rr_op. rewrite Hr1.
+        reflexivity. }
+      destruct (find_op pl pid) as [x|] eqn:Df.
+      - assert (Hx0 : o_rtys x = []).
+        { pose proof (HRI _ Df) as Hz0. rewrite Ert in Hz0. unfold zlen in Hz0. destruct (o_rtys x); [reflexivity | simpl in Hz0; lia]. }
+        rewrite (replace_nil_erase _ _ _ Df Hx0).
+        destruct (erase_op pl pid) as [pl'|] eqn:De.
+        + cbn [outcome]. exists regs1. split; [intro rest; rewrite Hrun, (find_op_id _ _ _ Df), De; reflexivity |].
+          split; [exact I1 | split; [exact HN | split; [apply RL_gone; eapply find_after_erase; exact De | apply TY_nil]]].
+        + cbn [outcome]. intro rest. rewrite Hrun, (find_op_id _ _ _ Df), De. reflexivity.
+      - unfold replace_op. rewrite Df. cbn [outcome]. intro rest. rewrite Hrun. reflexivity. }
     destruct (map_value fx P inp st (KLocal l)) as [[[sa ca] r]|] eqn:Ea; [| discriminate].
     cbv beta iota zeta delta [rtmp] in E1.
     match type of E1 with context [map_value fx P inp ?s0 (KOp (op_id rootpat))] => set (sa' := s0) in * end.
@@ -337,7 +479,7 @@ Proof.
     destruct (replace_op pl pid (op_results xn)) as [pl'|] eqn:Dp.
     + destruct (replace_op_find _ _ _ _ Dp) as (x & Dx & Hid). cbn [outcome]. exists regs2.
       split; [intro rest; rewrite Hrun, Dx, Hid, Dp; reflexivity |].
-      split; [exact I2 | split; [exact HN | apply RI_gone; eapply find_after_replace; exact Dp]].
+      split; [exact I2 | split; [exact HN | split; [apply RL_gone; eapply find_after_replace; exact Dp | apply TY_nil]]].
     + cbn [outcome]. intro rest. rewrite Hrun. destruct (find_op pl pid) as [x|] eqn:Dx; [| reflexivity].
       rewrite (find_op_id _ _ _ Dx), Dp. reflexivity.
   - (* pdl.erase *)
@@ -355,25 +497,25 @@ Proof.
     destruct (find_op pl pid) as [x|] eqn:Df; [| cbn [outcome]; intro rest; rewrite Hrun; reflexivity].
     destruct (erase_op pl pid) as [pl'|] eqn:De.
     + cbn [outcome]. exists regs1. split; [intro rest; rewrite Hrun, (find_op_id _ _ _ Df), De; reflexivity |].
-      split; [exact I1 | split; [exact HN | apply RI_gone; eapply find_after_erase; exact De]].
+      split; [exact I1 | split; [exact HN | split; [apply RL_gone; eapply find_after_erase; exact De | apply TY_nil]]].
     + cbn [outcome]. intro rest. rewrite Hrun, (find_op_id _ _ _ Df), De. reflexivity.
 Qed.
-Theorem stmts_full : forall l st stF code e regs pl,
+Theorem stmts_full : forall l t st stF code e regs pl,
   Inv' e st regs -> NR e -> gen_stmts fx P inp rootpat st l = Some (stF, code) -> pre (rg_used stF) usedF ->
-  RI rootpat pid pl -> Forall (frag rootpat) l ->
+  RL pl -> TY t e pl -> frag_all rootpat t l = true ->
   (forall s, In s l -> forall k, In k (stmt_keys s) -> ~ localk k -> klookup inp k <> None) ->
   run_rewriter fx pid (code ++ [RFinalize]) regs pl = run_rw fx pid l e pl.
 Proof.
-  induction l as [|s l IH]; intros st stF code e regs pl HI HN Hg Hpre HRI Hfr Hk.
+  induction l as [|s l IH]; intros t st stF code e regs pl HI HN Hg Hpre HRI HTY Hfr Hk.
   - simpl in Hg. inversion Hg; subst. reflexivity.
   - cbn [gen_stmts] in Hg. destruct (gen_stmt fx P inp rootpat st s l) as [[st1 c1]|] eqn:E1; [| discriminate].
     destruct (gen_stmts fx P inp rootpat st1 l) as [[st2 c2]|] eqn:E2; [| discriminate]. inversion Hg; subst; clear Hg.
     assert (Hpre1 : pre (rg_used st1) usedF) by (eapply pre_trans; [eapply gen_stmts_le; exact E2 | exact Hpre]).
-    inversion Hfr as [| ? ? Hfs Hfl]; subst.
-    pose proof (stmt_full s l st st1 c1 e regs pl HI HN E1 Hpre1 HRI Hfs (Hk s (or_introl eq_refl))) as Ho.
+    cbn [frag_all] in Hfr. apply andb_true_iff in Hfr. destruct Hfr as [Hfs Hfl].
+    pose proof (stmt_full s l t st st1 c1 e regs pl HI HN E1 Hpre1 HRI HTY Hfs (Hk s (or_introl eq_refl))) as Ho.
     rewrite run_rw_step. rewrite <- app_assoc.
     destruct (step_rw fx pid s l e pl) as [[e' pl']|]; cbn [outcome] in Ho.
-    + destruct Ho as (regs' & Hrun & HI' & HN' & HRI'). rewrite Hrun.
+    + destruct Ho as (regs' & Hrun & HI' & HN' & HRI' & HTY'). rewrite Hrun.
       eapply IH; try eassumption. intros s' Hs'. apply Hk. right. exact Hs'.
     + apply Ho.
 Qed.
